@@ -17,7 +17,7 @@ from . import C01
 
 PROPERTY = "C03"
 NUM = 3
-RULE = ("cases = list of 1-12 recordings (lengths differing per recording, 1-4 distinct time steps in sorted / reverse / "
+RULE = ("cases = list of 1-12 recordings (one case in 25: 24-530, a few forced long keeping-policy lists per run; lengths differing per recording, 1-4 distinct time steps in sorted / reverse / "
         "interleaved / majority-first / majority-last / tied arrangements, optional duplicates) x policy (3) x processor "
         "(frequency-domain, single azimuth, RotDpp, azimuthal) x pinned FFT length x centre frequencies possibly "
         "straddling the smallest Nyquist; plus all permutations (<= 4 recordings) or random permutations / sub-lists; "
@@ -28,7 +28,7 @@ ASSUMPTIONS = [
     "for keeping_majority_time_step any most-frequent time step is admissible when counts tie",
     "cases whose largest centre frequency is within 1e-9 (relative) of the deciding Nyquist frequency are not judged for the error clause",
 ]
-NOT_REACHED = ["lists longer than 530 (and between 13 and 269)", "diffuse_field / psd (one pooled curve; see C17)"]
+NOT_REACHED = ["lists longer than 530", "diffuse_field / psd (one pooled curve; see C17)"]
 BUDGET = {"quick": dict(cases=500, seconds=70, shards=4),
           "thorough": dict(cases=40000, seconds=600, shards=16)}
 REQUIRED = ["mon:rows-unchanged-by-reading", "mon:row-equals-single-run", "mon:row-count-and-order", "mon:frequency-equals-fcs",
@@ -123,7 +123,7 @@ def process_list(ctx, items, cfg):
 
 def fam_list(ctx, rng):
     k = int(rng.choice([1, 2, 2, 3, 3, 4, 5, 6, 8, 12]))
-    k, many = gen.maybe_large(rng, ctx, k, [270, 300, 530], p_quick=0.03, p_thorough=0.02)     # hours of windows in one call
+    k, many = gen.maybe_large(rng, ctx, k, [24, 48, 130, 270, 300, 530], p_quick=0.04, p_thorough=0.03)     # hours of windows in one call
     arrangement = ARR[int(rng.integers(0, len(ARR)))]
     forced = ctx.every(41, 11)          # a fixed handful of cases per run: a long list, mixed time steps in blocks, a keeping policy
     if forced:
